@@ -213,10 +213,11 @@ def tie_case(ctx, n, fam, v, form="plain", wires=None):
     return circ
 
 
-def oracle_case(ctx, n, fam, v, key, circ=None):
+def oracle_case(ctx, n, fam, v, key, circ=None, extra=None):
     from qiskit.quantum_info import Statevector
     N = 2 ** n
     rep = {"call": "qclib.state_preparation.blackbox.BlackBoxInitialize", "n": n, "family": fam, "vector": vec_payload(v)}
+    rep.update(extra or {})
     absmax = max(abs(a) for a in v)
     key = "blackbox.flag0:" + key + (":abs>1" if absmax > 1.0 else "")
     try:
@@ -458,6 +459,359 @@ def boundary_cases(ctx):
                 break
 
 
+# ----------------------------------------------------------------------------------------------------------------------
+# input-diversity section: the same observable on the FORMS an ordinary valid vector / call can take
+# ----------------------------------------------------------------------------------------------------------------------
+def _is_int(a):
+    return a.imag == 0 and float(a.real).is_integer()
+
+
+def _mixed(v):
+    return [int(a.real) if _is_int(a) else float(a.real) if a.imag == 0 else complex(a) for a in v]
+
+
+def _negzero(v):
+    out = []
+    for k, a in enumerate(v):
+        if a == 0:
+            out.append([complex(-0.0, -0.0), complex(0.0, -0.0), complex(-0.0, 0.0), -0.0][k % 4])
+        elif a.imag == 0 and a.real > 0:
+            out.append(complex(a.real, -0.0))            # arg = -0.0
+        else:
+            out.append(complex(a))
+    return out
+
+
+RAWFORMS = {
+    "list-complex": lambda v: [complex(a) for a in v],
+    "tuple-complex": lambda v: tuple(complex(a) for a in v),
+    "list-float": lambda v: [float(a.real) for a in v],
+    "tuple-float": lambda v: tuple(float(a.real) for a in v),
+    "list-int": lambda v: [int(a.real) for a in v],
+    "tuple-int": lambda v: tuple(int(a.real) for a in v),
+    "list-mixed": _mixed,
+    "nd-int64": lambda v: np.array([int(a.real) for a in v], dtype=np.int64),
+    "nd-int8": lambda v: np.array([int(a.real) for a in v], dtype=np.int8),
+    "nd-float32": lambda v: np.array([a.real for a in v], dtype=np.float32),
+    "nd-float64": lambda v: np.array([a.real for a in v], dtype=np.float64),
+    "nd-complex64": lambda v: np.array(v, dtype=np.complex64),
+    "nd-complex128": lambda v: np.array(v, dtype=np.complex128),
+    "list-np-int64": lambda v: [np.int64(int(a.real)) for a in v],
+    "list-np-float32": lambda v: [np.float32(a.real) for a in v],
+    "list-np-float64": lambda v: [np.float64(a.real) for a in v],
+    "list-np-complex64": lambda v: [np.complex64(a) for a in v],
+    "list-np-complex128": lambda v: [np.complex128(a) for a in v],
+    "negzero": _negzero,
+}
+REAL_FORMS = ("list-float", "tuple-float", "nd-float64", "list-np-float64", "list-mixed", "nd-complex128", "list-complex")
+INT_FORMS = ("list-int", "tuple-int", "nd-int64", "nd-int8", "list-np-int64", "list-mixed")
+F32_FORMS = ("nd-float32", "list-np-float32")          # only for vectors exactly representable in binary32
+C64_FORMS = ("nd-complex64", "list-np-complex64")
+ANY_FORMS = ("list-complex", "tuple-complex", "nd-complex128", "list-np-complex128", "list-mixed")
+DIVERSITY = {
+    "element types": "int lists / tuples / int64 / int8 arrays / numpy-int scalars (basis vectors +-1 at every index), float32 / complex64 "
+                     "arrays and scalars (binary32-exact dyadic vectors), float64 arrays, float / complex lists and tuples, mixed "
+                     "int-float-complex lists, complex dtype with zero imaginary parts and negative entries, negative zeros (oracle only)",
+    "scale": "heavy head (1 or 2 entries) + light tail 1e-3..1e-6 at start / end / mixed, real negative head with a 1e-6 purely imaginary "
+             "tail, all-equal moduli, two repeated values, all-negative, purely imaginary, modulus exactly 1, 1..3 non-zeros of 8..64, "
+             "norm in one sub-tree (half / quarter / odd / even indices)",
+    "phase": "global phase -1 / i / -i, per-entry phases +-1 / +-i",
+    "call forms": "constructor, label, copy() before / after the definition is built, one gate object appended twice, static initialize "
+                  "with qubits=None / permuted int list on a wider host / permuted Qubit objects of a two-register host / flag and index "
+                  "registers declared in the opposite order",
+    "sizes": "n = 1..6 (rounds r = 1, 1, 2, 3, 4, 6)",
+}
+
+HOWS = ("ctor", "ctor-label", "copy-before-def", "def-then-copy", "append-twice", "static-none", "static-ints",
+        "static-qubit-objs", "static-register")
+
+
+def build_how(raw, how, wires=None):
+    """(definition of the real gate, host circuit or None, wires the host instruction should sit on)"""
+    from qiskit import QuantumCircuit, QuantumRegister
+    from qclib.state_preparation.blackbox import BlackBoxInitialize
+    w = int(round(math.log2(len(raw)))) + 1
+    if how == "ctor":
+        return BlackBoxInitialize(raw).definition, None, None
+    if how == "ctor-label":
+        return BlackBoxInitialize(raw, label="div").definition, None, None
+    if how == "copy-before-def":              # copied before the definition is built; the original is built afterwards
+        g = BlackBoxInitialize(raw)
+        g2 = g.copy()
+        d2 = g2.definition
+        d1 = g.definition
+        host = QuantumCircuit(w)
+        host.append(g2, list(range(w)))
+        if dump(d1) != dump(d2):
+            raise AssertionError("copy() taken before the definition is built gives a different definition than the original")
+        return d2, host, list(range(w))
+    if how == "def-then-copy":                # definition built, then copied, copy used
+        g = BlackBoxInitialize(raw)
+        _ = g.definition
+        g2 = g.copy()
+        host = QuantumCircuit(w)
+        host.append(g2, list(range(w)))
+        return g2.definition, host, list(range(w))
+    if how == "append-twice":                 # one gate object on two disjoint wire sets (second one permuted)
+        g = BlackBoxInitialize(raw)
+        host = QuantumCircuit(2 * w)
+        host.append(g, list(range(w)))
+        host.append(g, list(wires))
+        return g.definition, host, list(range(w))
+    if how == "static-none":
+        host = QuantumCircuit(w)
+        BlackBoxInitialize.initialize(host, raw)
+        return host.data[0].operation.definition, host, list(range(w))
+    if how == "static-ints":
+        host = QuantumCircuit(w + 2)
+        BlackBoxInitialize.initialize(host, raw, qubits=list(wires))
+        return host.data[0].operation.definition, host, list(wires)
+    if how == "static-qubit-objs":            # Qubit objects of a host made of two registers, permuted
+        host = QuantumCircuit(QuantumRegister(2, "a"), QuantumRegister(w, "b"))
+        BlackBoxInitialize.initialize(host, raw, qubits=[host.qubits[i] for i in wires])
+        return host.data[0].operation.definition, host, list(wires)
+    if how == "static-register":              # flag and index registers declared in the opposite order of their use
+        idx, flag = QuantumRegister(w - 1, "idx"), QuantumRegister(1, "flag")
+        host = QuantumCircuit(idx, flag)
+        BlackBoxInitialize.initialize(host, raw, qubits=[flag[0]] + list(idx))
+        return host.data[0].operation.definition, host, [w - 1] + list(range(w - 1))
+    raise ValueError(how)
+
+
+def _how_wires(rng, how, w):
+    if how == "append-twice":
+        return rng.sample(range(w, 2 * w), w)
+    if how in ("static-ints", "static-qubit-objs"):
+        ws = rng.sample(range(w + 2), w)
+        if ws == sorted(ws):
+            ws = ws[::-1] if w > 1 else ws
+        return ws
+    return None
+
+
+def div_case(ctx, n, name, v, rawform, how="ctor", wires=None, tie=True, tag=None):
+    """v: the intended complex vector (python complex list); the library gets RAWFORMS[rawform](v) through `how`; the ideal
+    is np.asarray(raw, dtype=complex) computed here"""
+    from qiskit.quantum_info import Statevector
+    raw = RAWFORMS[rawform](v)
+    ideal = [complex(a) for a in np.asarray(raw, dtype=complex)]
+    tag = tag or name
+    key = f"n={n}:div:{tag}:{rawform}:{how}"
+    rep = {"n": n, "family": "div", "vector": vec_payload(ideal), "rawform": rawform, "how": how, "wires": wires, "name": name,
+           "tag": tag, "call": "qclib.state_preparation.blackbox.BlackBoxInitialize"}
+    ctx.count("diversity:" + name)
+    ctx.count("diversity:type:" + rawform)
+    ctx.count("diversity:call:" + how)
+    before = repr(raw)
+    try:
+        circ, host, on_want = build_how(raw, how, wires)
+    except Exception as e:                    # every generated vector is valid: construction must not fail
+        ctx.fail("blackbox.flag0:" + key + ":raises", f"{type(e).__name__}: {e}", rep)
+        return
+    if repr(raw) != before:
+        ctx.fail("blackbox.input-mutated:" + key, "the caller's vector object was modified by the construction", rep)
+    if tie and rawform != "negzero":
+        ctx.tie({"op": "bb", "n": n, "re": [float(a.real) + 0.0 for a in ideal], "im": [float(a.imag) + 0.0 for a in ideal]},
+                dump(circ), label=f"bb n={n} div {tag} {rawform} {how}")
+    oracle_case(ctx, n, "div", ideal, key, circ=circ, extra=rep)
+    if host is None:
+        return
+    w = n + 1
+    hkey = f"blackbox.static-wiring:{key}"
+    try:
+        on = [host.find_bit(q).index for q in host.data[0].qubits]
+        sv = np.asarray(Statevector(circ).data)
+        hv = np.asarray(Statevector(host).data)
+        want = np.zeros(2 ** host.num_qubits, dtype=complex)
+        if how == "append-twice":
+            for i, a in enumerate(sv):
+                for j, b in enumerate(sv):
+                    want[i + sum(((j >> t) & 1) << wires[t] for t in range(w))] = a * b
+        else:
+            for i, a in enumerate(sv):
+                want[sum(((i >> t) & 1) << on_want[t] for t in range(w))] = a
+        err = float(np.abs(hv - want).max())
+    except Exception as e:
+        ctx.fail(hkey + ":raises", f"{type(e).__name__}: {e}", rep)
+        return
+    if on != on_want or not err <= 1e-9:
+        ctx.fail(hkey, f"instruction on wires {on} (asked {on_want}); host state differs from the placed definition by {err:.3e}", rep)
+    else:
+        ctx.ok(hkey, nontrivial=True)
+
+
+def _unit(v):
+    v = np.asarray(v, dtype=complex)
+    return clean(v / np.linalg.norm(v))
+
+
+def _head_tail(r, N, heavy_at, tail_kind):
+    """one or two O(1) amplitudes at `heavy_at`, the others 1e-3 .. 1e-6 (geometric), phases from tail_kind"""
+    v = np.zeros(N, dtype=complex)
+    light = [i for i in range(N) if i not in heavy_at]
+    for j, i in enumerate(light):
+        mag = 10.0 ** (-3 - 3 * (j / max(1, len(light) - 1)))
+        ph = {"pos": 1, "neg": -1, "imag": 1j, "mix": [1, -1, 1j, -1j][j % 4],
+              "gen": np.exp(1j * r.uniform(0, 2 * math.pi))}[tail_kind]
+        v[i] = mag * ph * (0.5 + r.uniform())
+    hv = [0.8, -0.6j] if len(heavy_at) == 2 else [np.exp(1j * r.uniform(0, 2 * math.pi)) if tail_kind == "gen" else -1.0]
+    for i, a in zip(heavy_at, hv):
+        v[i] = a
+    return _unit(v)
+
+
+def _diversity_cases(ctx):
+    rng, r = ctx.rng, ctx.nprng()
+    hows_cycle = [0]
+
+    def next_how():
+        h = HOWS[hows_cycle[0] % len(HOWS)]
+        hows_cycle[0] += 1
+        return h
+
+    def emit(n, name, v, forms, hows=None, tie=True, tag=None):
+        """every raw form through the constructor, plus the forms spread round-robin over the other call forms"""
+        for f in forms:
+            div_case(ctx, n, name, v, f, "ctor", tie=tie, tag=tag)
+            h = next_how() if hows is None else rng.choice(hows)
+            if h != "ctor":
+                div_case(ctx, n, name, v, f, h, wires=_how_wires(rng, h, n + 1), tie=tie, tag=tag)
+
+    # ---- 1. element types -------------------------------------------------------------------------------------------
+    # integer basis vectors (a single amplitude of modulus exactly 1, phases +1 / -1), every index at n = 1, 2; ends at n = 3
+    for n in (1, 2, 3):
+        N = 2 ** n
+        for pos in (range(N) if n <= 2 else (0, 5, N - 1)):
+            for sgn in (1, -1):
+                v = [0j] * N
+                v[pos] = complex(sgn)
+                emit(n, "integer basis vector", v, INT_FORMS, tag=f"int-basis:{pos}:{'+' if sgn > 0 else '-'}")
+        # modulus exactly 1 with phase +-i
+        for pos, ph in ((0, 1j), (N - 1, -1j)):
+            v = [0j] * N
+            v[pos] = ph
+            emit(n, "basis vector with phase +-i", v, ("list-complex", "nd-complex64", "list-np-complex64", "list-mixed"),
+                 tag=f"i-basis:{pos}")
+    # binary32-exact vectors: all moduli 2^-(n/2) for even n, per-entry signs / phases +-1, +-i
+    for n in (2, 4):
+        N = 2 ** n
+        u = 2.0 ** (-n // 2)
+        signs = [rng.choice([1, -1]) for _ in range(N)]
+        signs[rng.randrange(N)] = -1
+        emit(n, "dyadic real vector, negative entries, float32 / float64 / int-free forms", [complex(u * s) for s in signs],
+             F32_FORMS + REAL_FORMS + C64_FORMS, tag="dyadic-real")
+        emit(n, "dyadic all-negative real vector", [complex(-u)] * N, F32_FORMS + ("nd-float64", "list-float"), tag="dyadic-neg")
+        ph = [rng.choice([1, -1, 1j, -1j]) for _ in range(N)]
+        emit(n, "dyadic vector with per-entry phases +-1, +-i", [u * p for p in ph], C64_FORMS + ANY_FORMS, tag="dyadic-phases")
+        emit(n, "dyadic purely imaginary vector", [u * rng.choice([1j, -1j]) for _ in range(N)], C64_FORMS + ("list-complex",),
+             tag="dyadic-imag")
+    # real vectors with negative entries in every real container / dtype (complex dtype with exactly zero imaginary parts too)
+    for n in (1, 2, 3):
+        v = r.normal(size=2 ** n)
+        v[r.integers(2 ** n)] = -abs(v[0]) - 0.1
+        emit(n, "real vector with negative entries", _unit(v), REAL_FORMS, tag="real-neg")
+        emit(n, "all-negative real vector", _unit(-np.abs(r.normal(size=2 ** n)) - 0.05), REAL_FORMS, tag="all-neg")
+        emit(n, "non-negative real vector", _unit(np.abs(r.normal(size=2 ** n)) + 0.05), ("list-float", "nd-float64"), tag="nonneg")
+    # generic complex vectors in every complex container
+    for n in (1, 2, 3):
+        emit(n, "generic complex vector", _unit(r.normal(size=2 ** n) + 1j * r.normal(size=2 ** n)), ANY_FORMS, tag="haar")
+    # negative zeros (oracle only: the sign of a zero does not survive the JSON tie)
+    for n in (1, 2, 3):
+        N = 2 ** n
+        v = r.normal(size=N) + 1j * r.normal(size=N)
+        v[[0, N - 1][: max(1, N // 2 - 0) if N > 2 else 1]] = 0
+        v[rng.randrange(1, N) if N > 2 else 1] = abs(v[1]) + 0.3       # a positive real entry gets imaginary part -0.0
+        v[0] = 0
+        emit(n, "negative zeros (-0.0 real / imaginary parts)", _unit(v), ("negzero",), hows=("ctor", "static-ints"), tie=False,
+             tag="negzero")
+
+    # ---- 2. scale structure -----------------------------------------------------------------------------------------
+    for n in (2, 3, 4):
+        N = 2 ** n
+        for where, heavy_at in (("start", [0]), ("end", [N - 1]), ("mixed", [rng.randrange(1, N - 1)]),
+                                ("two-start", [0, 1]), ("two-ends", [0, N - 1])):
+            for tail_kind in (("neg", "gen") if n < 4 else ("mix",)):
+                v = _head_tail(r, N, heavy_at, tail_kind)
+                forms = ("list-float", "nd-float64") if tail_kind == "neg" and len(heavy_at) == 1 else ("list-complex", "nd-complex128")
+                emit(n, "heavy head + light tail (1e-3 .. 1e-6)", v, forms[: 1 if n == 4 else 2], tag=f"headtail:{where}:{tail_kind}")
+    # real signed head (and real signed light entries) with a purely imaginary tail of 1e-6 .. 3e-6: "is the vector real?" must not
+    # be answered with a tolerance
+    for n in (1, 2, 3):
+        N = 2 ** n
+        for pos in (0, N - 1):
+            v = np.array([(1e-6 * (1 + 2 * k / N)) * (1j if k % 2 else -1j) for k in range(N)], dtype=complex)
+            v[pos] = -1.0
+            if N > 2:
+                v[(pos + 1) % N] = -2e-4
+            emit(n, "real negative head, tiny purely imaginary tail", _unit(v), ("list-complex", "nd-complex128"),
+                 tag=f"headtail:tiny-imag:{'start' if pos == 0 else 'end'}")
+    for n in (1, 2, 3, 4):
+        N = 2 ** n
+        u = 1 / math.sqrt(N)
+        emit(n, "all-equal moduli, per-entry phases +-1, +-i", clean([u * rng.choice([1, -1, 1j, -1j]) for _ in range(N)]),
+             ("list-complex", "nd-complex128"), tag="equalmod-4phases")
+        emit(n, "all-equal moduli, signs +-1 (real)", clean([u * rng.choice([1, -1]) for _ in range(N - 1)] + [-u]),
+             ("list-float", "nd-float64", "nd-complex128"), tag="equalmod-signs")
+        a, b = 0.6 / math.sqrt(N / 2), -0.8 / math.sqrt(N / 2)
+        emit(n, "exactly repeated values (two distinct amplitudes)", clean([a, b] * (N // 2)), ("list-float", "tuple-complex"),
+             tag="repeated")
+        emit(n, "purely imaginary vector, mixed signs", _unit(1j * r.normal(size=N)), ("list-complex", "nd-complex128"), tag="imag")
+    # sparse: count of non-zeros << length (1, 2, 3 non-zeros), real-negative and complex
+    for n, nnz in ((3, 1), (3, 2), (4, 1), (4, 2), (4, 3), (5, 1), (5, 2), (5, 3), (6, 2)):
+        N = 2 ** n
+        v = np.zeros(N, dtype=complex)
+        idx = rng.sample(range(N), nnz)
+        cplx = (n + nnz) % 2 == 0
+        for i in idx:
+            v[i] = (r.normal() + 1j * r.normal()) if cplx else -abs(r.normal()) - 0.1
+        emit(n, "sparse vector, non-zeros << length", _unit(v), ("list-complex",) if cplx else ("list-float",),
+             hows=("ctor",) if n >= 5 else None, tie=n <= 5, tag=f"sparse:nnz={nnz}:{'c' if cplx else 'neg'}")
+    # norm carried by a single sub-tree: first half / last half / last quarter / odd indices / even indices
+    for n in (2, 3, 4):
+        N = 2 ** n
+        for nm, sup in (("first-half", range(N // 2)), ("last-half", range(N // 2, N)), ("last-quarter", range(3 * N // 4, N)),
+                        ("odd", range(1, N, 2)), ("even", range(0, N, 2))):
+            v = np.zeros(N, dtype=complex)
+            real = rng.random() < 0.5
+            for i in sup:
+                v[i] = r.normal() if real else r.normal() + 1j * r.normal()
+            if real:
+                v[list(sup)[-1]] = -abs(v[list(sup)[-1]]) - 0.1
+            emit(n, "norm carried by one sub-tree", _unit(v), ("nd-float64",) if real else ("nd-complex128",),
+                 tag=f"subtree:{nm}:{'real' if real else 'c'}")
+
+    # ---- 3. sign / phase structure ----------------------------------------------------------------------------------
+    for n in (1, 2, 3):
+        N = 2 ** n
+        base_c = np.asarray(_unit(r.normal(size=N) + 1j * r.normal(size=N)))
+        base_r = np.asarray(_unit(np.abs(r.normal(size=N)) + 0.05))
+        for nm, g in (("-1", -1), ("i", 1j), ("-i", -1j)):
+            emit(n, "global phase -1 / i / -i times a generic vector", clean(g * base_c), ("list-complex",), tag=f"gphase{nm}:c")
+            emit(n, "global phase -1 / i / -i times a non-negative vector", clean(g * base_r),
+                 ("list-float", "nd-float64") if g == -1 else ("list-complex", "nd-complex128"), tag=f"gphase{nm}:r")
+
+    # ---- 4. call forms on sizes 1..3 for a real-negative and a complex vector: every call form at every size --------------
+    for n in (1, 2, 3):
+        N = 2 ** n
+        vr = _unit(r.normal(size=N) * np.array([(-1) ** k for k in range(N)]))
+        vc = _unit(r.normal(size=N) + 1j * r.normal(size=N))
+        vc[rng.randrange(N)] = 0j
+        vc = _unit(vc) if any(a != 0 for a in vc) else vc
+        for h in HOWS[1:]:
+            div_case(ctx, n, "every call form", vr, "nd-float64" if n % 2 else "list-float", h, wires=_how_wires(rng, h, n + 1),
+                     tag="callform:real")
+            div_case(ctx, n, "every call form", vc, "list-complex" if n % 2 else "nd-complex128", h,
+                     wires=_how_wires(rng, h, n + 1), tag="callform:c")
+    # ---- 5. sizes: the round loop runs r = 1, 1, 2, 3, 4, 6 times at n = 1..6 (r = 0 never occurs for a unit vector); a real
+    # signed and an integer basis vector at every n
+    for n in (4, 5, 6):
+        N = 2 ** n
+        v = [0j] * N
+        v[rng.randrange(N)] = -1 + 0j
+        div_case(ctx, n, "integer basis vector", v, "nd-int64", "ctor", tie=n <= 5, tag="int-basis:rand:-")
+        div_case(ctx, n, "real vector with negative entries", _unit(r.normal(size=N)), "nd-float64", "ctor", tie=n <= 5, tag="real-neg")
+
+
 def run(ctx, n_tie=None, n_or=None, draws=None):
     assumptions(ctx)
     reps_tie(ctx)
@@ -468,6 +822,7 @@ def run(ctx, n_tie=None, n_or=None, draws=None):
     oracle_case(ctx, 1, "probe", PROBE, "n=1:probe", circ=tie_case(ctx, 1, "probe", PROBE))
     entry_forms(ctx)
     boundary_cases(ctx)
+    _diversity_cases(ctx)
     for n in range(1, n_or + 1):
         for fam in FAMILIES:
             if fam == "pyth" and n < 1:
@@ -499,4 +854,8 @@ def search(ctx, hints):
 def replay(ctx, payload):
     r = payload["replay"]
     v = [complex(a, b) for a, b in r["vector"]]
+    if r.get("rawform"):
+        div_case(ctx, r["n"], r.get("name", "replay"), v, r["rawform"], r.get("how", "ctor"), wires=r.get("wires"), tie=False,
+                 tag=r.get("tag"))
+        return
     oracle_case(ctx, r["n"], r.get("family", "replay"), v, payload["key"].replace("blackbox.flag0:", "").replace(":abs>1", ""))
